@@ -83,9 +83,9 @@ theorem C10_literal_text_occurs_in_rendered_output (w : Nat) (d : Doc) (s : Stri
 /-- T10.1 without a certificate (route M): for every expression tree of the covered fragment the
 rendered layout contains every literal (strings with all their blanks and line breaks, numbers,
 identifiers, booleans) character for character and in order, at every width and unit. -/
-theorem C10_fragment_literals_preserved (e : Env) (fuel : Nat) (ctx : Ctx) (n : ANode) (hx : isExpr n = true) (hq : inFrag n = true)
+theorem C10_fragment_literals_preserved (e : Env) (fuel : Nat) (ctx : Ctx) (hctx : NM ctx) (n : ANode) (hx : isExpr n = true) (hq : inFrag n = true)
     (d : Twin.Doc) (k k' : St) (h : ((knot e fuel).expr ctx n).run k = .ok (d, k')) (u w : Nat) :
     litText (best w 0 [⟨0, .brk, d.fam u⟩]) = (specLit n).toList :=
-  (routeM_expr e fuel ctx n hx hq d k k' h u w).2.2.2.1
+  (routeM_expr e fuel ctx hctx n hx hq d k k' h u w).2.2.2.1
 
 end Typstyle
